@@ -10,8 +10,20 @@ computes everything exactly in Rat from the same bit patterns):
   * residual criterion on the float coefficients c^ of the real fit:  ||M c^ - r||_inf <= K 2^-24 (||M||_inf ||c^||_inf + ||r||_inf);
   * objective(c^) >= objective(c*) exactly (c* exact minimiser); ||c^ - c*||_inf reported;
   * the same criterion for the C wrapper, for a listing with permuted rows and inserted zero-weight entries;
-  * spline data with lambda = 0 and polynomial data below the penalty order (every lambda): reproduced at the data points."""
-import json, os, struct, sys
+  * spline data with lambda = 0 and polynomial data below the penalty order (every lambda): reproduced at the data points.
+Index arithmetic of flatten_ndarray_to_sparse in its C types (Props/C09c.lean: flatten_ctypes_exact, flatten_row_col_halves,
+flatten_F_row_col, flatten_R_row, flatten_injective, flatten_unsigned_moduli_collides, flatten_int_moduli_wrong):
+  * harness/c09_flatten.c #includes the real glam.c and calls the REAL static function on synthetic ndsparse arrays (few entries,
+    large ranges, 1..6 dimensions = 1..12 axes, products of the ranges below / at / above 2^32); the cholmod_sparse it returns is
+    read back as triplets; `psvdriver C09` (line kind L) computes (row, col) of every entry with PsV.flattenC (long moduli,
+    unsigned ranges, size_t ncol); compared exactly; independently of the model the property-level oracle (Python big-int mixed
+    radix of the two halves of the index tuple) is evaluated and a wrong placement is reported with a replay.
+Large problems: real fits with more than 65536 coefficients of bilinear data (penalty order 2, smoothing > 0), judged by reproduction
+at the data points only (poly_any_degree_below_penalty_reproduced; the exact Rat solve is far too expensive there).
+Scale equivariance (Props/C09c.lean: objective_scales, normal_system_scales, C09_scale_equivariant,
+C09_scaled_solution_is_unique_minimiser): real fits on (w, lambda) and (s w, s lambda), s = 2^-60 .. 2^40, must return the same
+coefficients (measured: bit for bit)."""
+import json, os, re, struct, sys
 from fractions import Fraction
 import psvlib
 
@@ -19,6 +31,7 @@ if hasattr(sys, "set_int_max_str_digits"): sys.set_int_max_str_digits(0)
 U24 = Fraction(1, 2 ** 24)
 K_RES = 2
 K_REPRO = 64
+K_SCALE = 4     # scale equivariance: measured difference is 0 (bit for bit, 22 000 comparisons); anything above 4*2^-24*max|c| is a violation
 
 def frac(s):
     a, b = s.split("/"); return Fraction(int(a), int(b))
@@ -38,13 +51,196 @@ def describe(fline):
     npo = int(w[p]); po = [int(z) for z in w[p + 1:p + 1 + npo]]
     return {"ndim": nd, "dims": dims, "coords": coords, "rows": rows[:400], "nrows": nr, "smoothing": sm, "penalty_order": po}
 
+def jload(ctx, line, what):
+    """one JSON line of harness/c09_streams.cpp (C prints non-finite doubles as nan / inf)"""
+    t = re.sub(r"(?<![\w\"])-?nan\b", "NaN", line)
+    t = re.sub(r"(?<![\w\"-])inf\b", "Infinity", t)
+    t = re.sub(r"(?<![\w\"])-inf\b", "-Infinity", t)
+    try: return json.loads(t)
+    except Exception as ex:
+        ctx.tie_ok = False
+        if len(ctx.broken) < 6: ctx.broken.append({"kind": "unreadable line from the %s stream" % what, "line": line[:400], "error": str(ex)})
+        return None
+
+def mixed_radix(ranges, idx):
+    k = 0
+    for r, i in zip(ranges, idx): k = k * r + i
+    return k
+
+def flatten_stream(ctx, counts, worst, nontriv, dist):
+    """flatten_ndarray_to_sparse: real routine vs PsV.flattenC (exactly) vs the big-int mixed-radix oracle."""
+    evals = 0
+    others = [c for c in psvlib.FITTER_C if not c.endswith("glam.c")]
+    src = os.path.join(psvlib.VERIF, "harness", "c09_flatten.c")
+    for mode in ("shipped", "san"):
+        exe = ctx.compile("c09flat_" + mode, [], mode=mode, defines=["PHOTOSPLINE_INCLUDES_SPGLAM"], repo_cpp=[],
+                          repo_c=[src] + others, libs=psvlib.FITTER_LIBS, extra=["-I" + psvlib.REPO])
+        if not exe:
+            ctx.tie_ok = False; ctx.broken.append({"kind": "flatten harness build failed", "mode": mode}); continue
+        base = os.path.join(ctx.scratch, "c09flat" + mode)
+        cases, impl, stats, model = base + ".in", base + ".impl", base + ".stats", base + ".model"
+        nrand = (300 if ctx.tier == "quick" else 3000) if mode == "shipped" else (100 if ctx.tier == "quick" else 600)
+        rc, out, err = ctx.run([exe, str(nrand), cases, impl, stats], timeout=900, env={"OMP_NUM_THREADS": "1"})
+        if rc != 0:
+            last = ""
+            try: last = open(cases).read().splitlines()[-1]
+            except Exception: pass
+            ctx.violation({"harness_rc": rc, "mode": mode, "stderr": err[-3000:], "case_line": last[:4000],
+                           "replay_cmd": "VERIF_SEED=%d python3 bin/check.py C09 --tier %s" % (ctx.seed, ctx.tier)},
+                          "flatten_ndarray_to_sparse harness (%s build) %s rc=%d on the last listed case: %s" % (mode, "timed out" if rc == 124 else "aborted", rc, err[-400:]))
+            ctx.tie_ok = False; continue
+        if not ctx.driver_ok() or not ctx.run_driver("C09", cases, model):
+            ctx.tie_ok = False; ctx.broken.append({"kind": "driver failed (flatten)"}); continue
+        if mode == "shipped": dist["flatten_ndarray_to_sparse"] = json.load(open(stats))
+        with open(cases) as fc, open(impl) as fi, open(model) as fm:
+            for ln, (c, i, m) in enumerate(zip(fc, fi, fm), 1):
+                evals += 1; counts["flatten_cases"] += 1
+                w = c.split(); nd = int(w[1]); ranges = [int(z) for z in w[2:2 + nd]]; ncol = int(w[2 + nd]); ne = int(w[3 + nd])
+                flat = [int(z) for z in w[4 + nd:]]; tuples = [flat[e * nd:(e + 1) * nd] for e in range(ne)]
+                split = nd if ncol == 1 else nd // 2
+                prod = 1
+                for r in ranges: prod *= r
+                if prod > 2 ** 32: counts["flatten_cases_above_2^32_cells"] += 1
+                # property-level oracle: row / column = mixed-radix numbers of the two halves of the index tuple
+                want_cell = [(mixed_radix(ranges[:split], t[:split]), mixed_radix(ranges[split:], t[split:])) for t in tuples]
+                want = {}
+                for e, cell in enumerate(want_cell): want[cell] = want.get(cell, 0) + 2 ** (e % 48)
+                nrow_want = 1
+                for r in ranges[:split]: nrow_want *= r
+                def broke(what, **kw):
+                    ctx.tie_ok = False
+                    if len(ctx.broken) < 6: ctx.broken.append(dict(kind=what, mode=mode, line=ln, case=c.strip()[:600], impl=i.strip()[:400], model=m.strip()[:400], **kw))
+                # the C-typed model
+                mw = m.split()
+                model_cell = None
+                if mw[:1] == ["ok"] and len(mw) == 2 + 2 * ne:
+                    if mw[1] != "pre=1": broke("generated flatten case outside the hypotheses of flatten_ctypes_exact")
+                    model_cell = [(int(mw[2 + 2 * e]), int(mw[3 + 2 * e])) for e in range(ne)]
+                    if model_cell != want_cell:
+                        broke("PsV.flattenC differs from the mixed-radix oracle (contradicts flatten_row_col_halves)")
+                else: broke("driver could not handle the flatten case")
+                # the real routine
+                iw = i.split()
+                got = None
+                if iw[:1] == ["T"]:
+                    nnz = int(iw[3]); got = {}
+                    for q in range(nnz):
+                        r_, c_, v = int(iw[4 + 3 * q]), int(iw[5 + 3 * q]), dbl(iw[6 + 3 * q])
+                        got[(r_, c_)] = got.get((r_, c_), 0) + int(v)
+                if got != want:
+                    e_bad, where = None, None
+                    for e, cell in enumerate(want_cell):
+                        if got is None or not (got.get(cell, 0) >> (e % 48)) & 1:
+                            e_bad = e
+                            where = [list(k) for k, v in (got or {}).items() if (v >> (e % 48)) & 1]
+                            break
+                    rep = {"function": "flatten_ndarray_to_sparse (src/fitter/glam.c)", "ranges": ranges, "nrow": nrow_want, "ncol": ncol, "ndim": nd,
+                           "cells_in_the_array": prod, "entries": tuples, "values": "entry e carries 2^e", "mode": mode,
+                           "failing_entry": e_bad, "indices": tuples[e_bad] if e_bad is not None else None,
+                           "expected_row_col": list(want_cell[e_bad]) if e_bad is not None else None, "obtained_row_col": where if got is not None else "routine returned NULL: " + i.strip(),
+                           "true_flattened_position": mixed_radix(ranges, tuples[e_bad]) if e_bad is not None else None,
+                           "returned_triplets": i.strip()[:1500], "case_line": c.strip()[:3000]}
+                    counts["flatten_wrong"] += 1
+                    if counts["flatten_wrong"] > 3: ctx.violations += 1     # counted; the first three carry the replays
+                    else: ctx.report("flatten_ndarray_to_sparse:wrong-cell", rep,
+                               "flatten_ndarray_to_sparse puts the entry with indices %s of an array with ranges %s (%d cells%s) at (row, col) = %s instead of %s: the normal matrix of a fit with %d coefficients is assembled wrongly"
+                               % (rep["indices"], ranges, prod, ", more than 2^32" if prod > 2 ** 32 else "", rep["obtained_row_col"], rep["expected_row_col"], nrow_want))
+                if model_cell is not None and got is not None:
+                    mg = {}
+                    for e, cell in enumerate(model_cell): mg[cell] = mg.get(cell, 0) + 2 ** (e % 48)
+                    if mg != got: broke("the real flatten_ndarray_to_sparse and the C-typed model PsV.flattenC disagree")
+                    elif got == want: nontriv.add(c)
+    return evals
+
+def streams(ctx, counts, worst, nontriv, dist):
+    """large fits (reproduction only) and scale equivariance, both on the real splinetable::fit"""
+    evals = 0
+    exe = ctx.compile("c09_streams", ["c09_streams.cpp"], mode="shipped", defines=["PHOTOSPLINE_INCLUDES_SPGLAM"],
+                      repo_c=psvlib.FITTER_C, libs=psvlib.FITTER_LIBS)
+    if not exe:
+        ctx.tie_ok = False; ctx.broken.append({"kind": "streams harness build failed"}); return 0
+    # ---- large
+    outp = os.path.join(ctx.scratch, "c09large.jsonl")
+    nlarge = 3 if ctx.tier == "quick" else 9
+    rc, out, err = ctx.run([exe, "large", str(nlarge), outp, ctx.tier], timeout=1500, env={"OMP_NUM_THREADS": "1"})
+    lines = []
+    try: lines = open(outp).read().splitlines()
+    except Exception: pass
+    if rc != 0:
+        ctx.violation({"harness_rc": rc, "stderr": err[-3000:], "last_problem": lines[-1][:6000] if lines else None,
+                       "replay_cmd": "VERIF_SEED=%d python3 bin/check.py C09 --tier %s" % (ctx.seed, ctx.tier)},
+                      "large-fit harness %s rc=%d: %s" % ("timed out" if rc == 124 else "aborted", rc, err[-400:]))
+        lines = lines[:-1]
+    dl = dist.setdefault("large_fits", {"shapes": [], "smoothing": [], "seconds": []})
+    for l in lines:
+        d = jload(ctx, l, "large-fit")
+        if d is None: continue
+        evals += 1; counts["large_fits"] += 1
+        dl["shapes"].append("x".join(str(z) for z in d["ncoef_per_dim"]) + " order %d" % d["order"]); dl["smoothing"].append(d["smoothing"]); dl["seconds"].append(d.get("seconds"))
+        rep = dict(d); rep["data"] = "z = prod_d (poly_const[d] + poly_slope[d]*x_d) on the full grid coords_0 x coords_1 (x ...), penalty order 2, one smoothing value for all dimensions"
+        if d["ncoef"] <= 65536: ctx.tie_ok = False; ctx.broken.append({"kind": "large stream generated a small problem", "ncoef": d["ncoef"]})
+        if d.get("status") != "ok":
+            ctx.violation(rep, "the fit of a well-posed problem with %d coefficients (dense data, smoothing %g > 0) %s" % (d["ncoef"], d["smoothing"], "failed: " + str(d.get("error")) if d.get("status") == "failed" else "returned " + str(d.get("status"))))
+            continue
+        sc = max(d["max_abs_coefficient"], d["max_abs_datum"])
+        ratio = d["max_residual"] / (2.0 ** -24 * sc) if sc > 0 else 0.0
+        if ratio == ratio: worst["large_repro_ratio"] = max(worst["large_repro_ratio"], ratio)
+        if not ratio <= K_REPRO:
+            ctx.violation(rep, "a fit with %d coefficients (%s, order %d, smoothing %g) does not reproduce data that are a polynomial of degree below the penalty order: max residual at the data points %.3g (fit %.6g, datum %.6g at grid point %s; %d points off by more than 1e-4) > %d*2^-24*%.3g"
+                          % (d["ncoef"], " x ".join(str(z) for z in d["ncoef_per_dim"]), d["order"], d["smoothing"], d["max_residual"], d["fit_at_worst"], d["datum_at_worst"], d["worst_point"], d["points_off_by_1e-4"], K_REPRO, sc))
+        else:
+            nontriv.add(l[:3000])
+    # ---- scale equivariance
+    outp = os.path.join(ctx.scratch, "c09scale.jsonl")
+    nscale = 150 if ctx.tier == "quick" else 1500
+    rc, out, err = ctx.run([exe, "scale", str(nscale), outp, ctx.tier], timeout=900, env={"OMP_NUM_THREADS": "1"})
+    lines = []
+    try: lines = open(outp).read().splitlines()
+    except Exception: pass
+    if rc != 0:
+        ctx.violation({"harness_rc": rc, "stderr": err[-3000:], "last_problem": lines[-1][:6000] if lines else None,
+                       "replay_cmd": "VERIF_SEED=%d python3 bin/check.py C09 --tier %s" % (ctx.seed, ctx.tier)},
+                      "scale-equivariance harness %s rc=%d: %s" % ("timed out" if rc == 124 else "aborted", rc, err[-400:]))
+        lines = lines[:-1]
+    ds = dist.setdefault("scale_equivariance", {"ndim": {}, "weight_style(0 1e-3..1e3, 1 all one, 2 times 1e-18, 3 times 1e12)": {}, "missing_cell_problems": 0, "smoothing_below_DBL_EPSILON_after_scaling": 0})
+    for l in lines:
+        d = jload(ctx, l, "scale-equivariance")
+        if d is None: continue
+        evals += 1; counts["scale_problems"] += 1
+        ds["ndim"][str(d["ndim"])] = ds["ndim"].get(str(d["ndim"]), 0) + 1
+        k2 = "weight_style(0 1e-3..1e3, 1 all one, 2 times 1e-18, 3 times 1e12)"; ds[k2][str(d["weight_style"])] = ds[k2].get(str(d["weight_style"]), 0) + 1
+        if d["missing_pct"] > 0: ds["missing_cell_problems"] += 1
+        if d.get("base") != "ok":
+            counts["scale_base_fit_failed_skipped"] += 1; continue
+        cmax = d["max_abs_coefficient"]
+        for r in d["results"]:
+            counts["scale_comparisons"] += 1
+            if any(0 < z < 2.220446049250313e-16 for z in r["scaled_smoothing"]): ds["smoothing_below_DBL_EPSILON_after_scaling"] += 1
+            rep = {"problem": describe(d["case_line"]), "case_line": d["case_line"][:20000], "smoothing": d["smoothing"], "scale": "2^%d" % r["log2_s"],
+                   "scaled_smoothing": r["scaled_smoothing"], "weights_scaled_by": "2^%d (exact)" % r["log2_s"], "result": r, "max_abs_coefficient_of_base_fit": cmax}
+            if r["status"] != "ok":
+                ctx.violation(rep, "the fit succeeds on (w, lambda) but %s on (s*w, s*lambda), s = 2^%d: the minimiser does not depend on a common factor of weights and smoothing" % ("fails" if r["status"] == "failed" else "returns " + r["status"], r["log2_s"]))
+                continue
+            if r["coefficients_differing"] == 0:
+                counts["scale_bit_identical"] += 1; nontriv.add(l[:200] + str(r["log2_s"])); continue
+            rel = r["max_abs_diff"] / cmax if cmax > 0 else float("inf")
+            if rel == rel: worst["scale_rel_diff"] = max(worst["scale_rel_diff"], rel)
+            if not rel <= K_SCALE * 2.0 ** -24:
+                ctx.violation(rep, "fit(w, lambda) and fit(s*w, s*lambda) with s = 2^%d (smoothing %s -> %s) return different coefficients: %d differ, max difference %.3g (coefficient %d: %.9g vs %.9g; max |c| = %.3g) - the objective is merely multiplied by s, the minimiser is the same"
+                              % (r["log2_s"], d["smoothing"], r["scaled_smoothing"], r["coefficients_differing"], r["max_abs_diff"], r["at"], r["base_there"], r["scaled_there"], cmax))
+            else:
+                counts["scale_differs_within_tolerance"] += 1
+    return evals
+
 def run(ctx):
-    ctx.audit(extra_props=("C09b",))   # Props/C09b.lean: glam_eq_kron_1d_C09, glam_eq_kron_C09 (separate module: the proofs use Props/C17 and Props/C09)
+    ctx.audit(extra_props=("C09b", "C09c"))   # Props/C09b.lean: glam_eq_kron_1d_C09, glam_eq_kron_C09 (separate module: the proofs use Props/C17 and Props/C09); Props/C09c.lean: C-typed flatten_ndarray_to_sparse, scale equivariance
     plan = [("shipped", 26 if ctx.tier == "quick" else 140, 0), ("san", 8 if ctx.tier == "quick" else 30, 0)]
     evals = 0; nontriv = set(); dist = {}
-    worst = {"residual_ratio": 0.0, "rel_coef_diff": 0.0, "repro_ratio_spline": 0.0, "repro_ratio_poly": 0.0, "variant_vs_base_rel": 0.0, "exact_repro_star": 0.0}
+    worst = {"large_repro_ratio": 0.0, "scale_rel_diff": 0.0, "residual_ratio": 0.0, "rel_coef_diff": 0.0, "repro_ratio_spline": 0.0, "repro_ratio_poly": 0.0, "variant_vs_base_rel": 0.0, "exact_repro_star": 0.0}
     counts = {"problems": 0, "spd": 0, "not_spd_skipped": 0, "fits_judged": 0, "cwrap_same_bits": 0, "cwrap_other_bits": 0, "variants": 0,
-              "spline_lambda0": 0, "poly_below_penalty": 0, "fit_failed_on_spd": 0}
+              "spline_lambda0": 0, "poly_below_penalty": 0, "fit_failed_on_spd": 0,
+              "flatten_cases": 0, "flatten_cases_above_2^32_cells": 0, "flatten_wrong": 0, "large_fits": 0, "scale_problems": 0, "scale_comparisons": 0,
+              "scale_bit_identical": 0, "scale_differs_within_tolerance": 0, "scale_base_fit_failed_skipped": 0}
     for mode, n, minorder in plan:
         exe = ctx.compile("c09_" + mode, ["c09_harness.cpp"], mode=mode, defines=["PHOTOSPLINE_INCLUDES_SPGLAM"],
                           repo_c=psvlib.FITTER_C, libs=psvlib.FITTER_LIBS)
@@ -138,10 +334,14 @@ def run(ctx):
                     d = rep["problem"]
                     ctx.coverage["samples"].append({"orders": [x["order"] for x in d["dims"]], "ncoef": cur["N"], "rows": cur["R"], "smoothing": d["smoothing"], "penalty_order": d["penalty_order"],
                                                     "class": cur["cls"], "residual_in_units_of_2^-24*scale": ratio, "max_abs_diff_to_exact_minimiser": float(diff)})
+    evals += flatten_stream(ctx, counts, worst, nontriv, dist)
+    evals += streams(ctx, counts, worst, nontriv, dist)
     ctx.coverage["evaluations"] = evals
     ctx.coverage["distinct_nontrivial"] = len(nontriv)
     ctx.coverage["rule"] = ("problems drawn from VERIF_SEED by harness/c09_harness.cpp; non-trivial = a coefficient vector returned by a real fit of a problem whose normal matrix "
-                            "was verified positive definite exactly (all pivots > 0) and judged by the residual criterion; distinct = distinct (problem, coefficient) lines")
+                            "was verified positive definite exactly (all pivots > 0) and judged by the residual criterion; distinct = distinct (problem, coefficient) lines; "
+                            "plus every distinct flatten_ndarray_to_sparse case on which the real routine, PsV.flattenC and the big-int oracle agree, every large fit (> 65536 coefficients) "
+                            "that reproduces its bilinear data, and every (problem, scale) pair whose coefficients are bit-identical to the unscaled fit")
     ctx.coverage["input_distribution"] = dist
     ctx.coverage["counts"] = counts
     ctx.coverage["worst"] = worst
@@ -151,7 +351,10 @@ def run(ctx):
                         "the n-d GLAM assembly identity (box / slicemultiply / reshape / Kronecker penalty chain = Kronecker normal equations) is a theorem about the model (glam_eq_kron_C09, any number of dimensions); glamM/glamR re-check it per instance (exact equality in Rat) as a regression test of the model",
                         "positive definiteness: normal_matrix_posDef_iff / _of_full_rank give the reason (full column rank of the design matrix on the positively weighted data, or a penalty that sees the kernel); that a generated instance is well-posed is decided by exact elimination (all pivots > 0), whose success is proved to imply positive definiteness (specFit_certifies_posDef)",
                         "polynomial reproduction is a theorem for every degree below the penalty order (poly_any_degree_below_penalty_reproduced: Marsden's identity; data inside the fully supported range, distinct knots - what the generator produces); the numerical reproduction test of the real fit remains",
-                        "problems whose normal matrix is not positive definite (a pivot <= 0 in exact elimination) are skipped"]
+                        "problems whose normal matrix is not positive definite (a pivot <= 0 in exact elimination) are skipped",
+                        "flatten_ndarray_to_sparse is exercised directly (harness/c09_flatten.c includes the tree's glam.c) on synthetic arrays with Pi ranges < 2^63 in the two shapes glam.c uses (F: axes n,n with ncol = Pi n; R: ncol = 1); larger products are outside flatten_ctypes_exact (signed overflow of long) and are not generated",
+                        "fits with more than 65536 coefficients (normal matrix with more than 2^32 cells) are judged ONLY by reproduction of bilinear data at the data points (tolerance %d*2^-24*max(||c||_inf, max|z|), smoothing in {1e-3, 0.1, 0.5, 2}, own Cox-de Boor evaluation): the exact Rat oracle is infeasible there; the residual criterion and the exact minimiser are checked only up to 40 (quick) / 120 (thorough) unknowns" % K_REPRO,
+                        "scale equivariance: s is a power of 4 (2^-60 .. 2^40), so every product and the Cholesky factor scale exactly; measured on the unchanged tree: all coefficients bit-identical; tolerated: %d*2^-24*max|c|; base fits that fail are skipped (none observed)" % K_SCALE]
 
 def replay(ctx, path):
     r = json.load(open(path))
